@@ -145,6 +145,10 @@ def _map_query_error(error: duckdb.Error, sql_query: str) -> Exception:
     if "cannot take logarithm of a negative number" in msg_lower:
         return RunTimeError("2-1-15-3", op="log", value="negative")
 
+    # Square root of a negative number
+    if "square root of a negative number" in msg_lower:
+        return RunTimeError("2-1-15-2", op="sqrt", value="negative")
+
     # Return original error if no mapping found
     return error
 
